@@ -132,6 +132,7 @@ namespace BitSerializer::Csv::Detail
 			size_t doubleQuotesCount = 0;
 			size_t endValuePos = totalSize;
 			size_t precedingCrPos = std::string::npos;
+			bool isEndedBySeparator = false;
 
 			while (mCurrentPos < totalSize)
 			{
@@ -145,6 +146,7 @@ namespace BitSerializer::Csv::Detail
 				{
 					endValuePos = mCurrentPos;
 					++mCurrentPos;
+					isEndedBySeparator = true;
 					break;
 				}
 				// End of line (can be CRLF or just LF)
@@ -171,6 +173,10 @@ namespace BitSerializer::Csv::Detail
 			// Handle end of file (RFC: The last record in the file may or may not have an ending line break)
 			if (mCurrentPos == mSourceString.size())
 			{
+				// The last value is empty when the file ends right after the separator
+				if (isEndedBySeparator) {
+					out_values.emplace_back(totalSize, 0, false);
+				}
 				break;
 			}
 		}
